@@ -430,6 +430,14 @@ Proof. cbn. unfold new_same, keeps_old_cf. intros w w' (_ & H1 & H2). split; ass
 Lemma svb_ok : forall w w', svbPO w w' -> okPO w w'.
 Proof. intros w w' H. apply new_ok, svb_new, H. Qed.
 
+(* what follows a computation may rely on what the computation preserves *)
+Lemma dg_bind_frame : forall (P : PO) {A B} (m : M A) (k1 k2 : A -> M B) w,
+  pres P m -> (forall w', P w w' -> forall a, k1 a w' = k2 a w') -> bind m k1 w = bind m k2 w.
+Proof.
+  intros P A B m k1 k2 w Hm Hk. unfold bind. destruct (m w) as [w' [a|e]] eqn:E; [|reflexivity].
+  apply Hk. eapply Hm. exact E.
+Qed.
+
 Lemma create_dirs_new : forall ds, pres newPO (create_dirs ds).
 Proof.
   intro ds. unfold create_dirs. apply pres_mapM_. intro d. apply pres_catch; [apply effect_new|].
@@ -488,15 +496,41 @@ Definition commit_file (f : path) : M unit :=
   icf <- is_cache_file f ;;
   if negb vf && negb icf then try_to_remove_file f else ret tt.
 
+Lemma commit_file_run : forall f w,
+  commit_file f w
+  = match m_is_file f None w with
+    | (w1, inl vf) =>
+        if negb vf && negb (path_eqb f (w_cachefile w1)) then try_to_remove_file f w1 else (w1, inl tt)
+    | (w1, inr e) => (w1, inr e)
+    end.
+Proof.
+  intros f w. unfold commit_file, bind, is_cache_file, ret.
+  destruct (m_is_file f None w) as [w1 [vf|e]]; [|reflexivity].
+  destruct (negb vf && negb (path_eqb f (w_cachefile w1))); reflexivity.
+Qed.
+
+Lemma gen_fb_commit_loop1_step : forall f l w,
+  gen_fb_commit_loop1 (f :: l) w
+  = match m_is_file f None w with
+    | (w1, inl vf) =>
+        if negb vf && negb (path_eqb f (w_cachefile w1))
+        then (gen_fb_try_to_remove_file f ;;; gen_fb_commit_loop1 l) w1 else gen_fb_commit_loop1 l w1
+    | (w1, inr e) => (w1, inr e)
+    end.
+Proof.
+  intros f l w. cbn [gen_fb_commit_loop1]. unfold bind at 1 2 3. unfold ret, is_cache_file.
+  destruct (m_is_file f None w) as [w1 [[|]|e]]; cbn [negb andb]; try reflexivity.
+  unfold bind at 1. destruct (path_eqb f (w_cachefile w1)); reflexivity.
+Qed.
+
 Lemma gen_fb_commit_loop1_eq : forall l w, gen_fb_commit_loop1 l w = mapM_ commit_file l w.
 Proof.
-  induction l as [|f l IH]; intro w; cbn [gen_fb_commit_loop1 mapM_]; [reflexivity|].
-  unfold commit_file. rewrite !dg_bind_assoc. apply dg_bind_cong; [reflexivity|]. intros vf w1.
-  rewrite !dg_bind_ret_l. unfold is_cache_file. destruct vf; cbn [negb andb].
-  - unfold bind, ret. apply IH.
-  - unfold bind at 1 2 3 4. unfold ret. cbv beta iota.
-    destruct (path_eqb f (w_cachefile w1)); cbn [negb]; [apply IH|].
-    apply dg_bind_cong; [apply gen_fb_try_to_remove_file_eq|]. intros _ w2. apply IH.
+  induction l as [|f l IH]; intro w; [reflexivity|].
+  rewrite gen_fb_commit_loop1_step. cbn [mapM_]. unfold bind at 2. rewrite commit_file_run.
+  destruct (m_is_file f None w) as [w1 [vf|e]]; [|reflexivity].
+  destruct (negb vf && negb (path_eqb f (w_cachefile w1))); [|apply IH].
+  unfold bind. rewrite gen_fb_try_to_remove_file_eq.
+  destruct (try_to_remove_file f w1) as [w2 [[]|e]]; [apply IH|reflexivity].
 Qed.
 
 (* the model's second loop (a local fix of [commit]) *)
@@ -556,7 +590,7 @@ Lemma fold_del_path_filter : forall ds l,
   fold_left (fun acc d => del_path d acc) ds l = filter (fun x => negb (mem_path x ds)) l.
 Proof.
   induction ds as [|d ds IH]; intro l; cbn [fold_left mem_path].
-  - induction l as [|x l IHl]; cbn; [reflexivity|]. rewrite <- IHl. reflexivity.
+  - induction l as [|x l IHl]; cbn; [reflexivity|]. f_equal. exact IHl.
   - rewrite IH, filter_del_path. apply filter_ext. intro x. rewrite negb_orb. reflexivity.
 Qed.
 
@@ -586,17 +620,13 @@ Proof.
   set (dtr := filter _ _).
   transitivity (((mapM_ try_to_remove_file (c_built (w_new w)) ;;; remove_empty_dirs dtr ;;; restore_all) ;;;
                  create_dirs (c_dirs (w_old w))) w).
-  - unfold bind at 1. unfold bind at 4. rewrite gen_fb_roll_back_loop2_eq.
-    destruct (mapM_ try_to_remove_file (c_built (w_new w)) w) as [w1 [[]|e]] eqn:E1; [|reflexivity].
-    unfold bind at 1. unfold bind at 3. rewrite gen_fb_remove_empty_dirs_eq.
-    destruct (remove_empty_dirs dtr w1) as [w2 [[]|e]] eqn:E2; [|reflexivity].
-    unfold bind at 1. rewrite gen_bk_restore_all_eq.
-    destruct (restore_all w2) as [w3 [[]|e]] eqn:E3; [|reflexivity].
-    rewrite dg_bind_get, dg_bind_tt.
-    assert (H : w_old w3 = w_old w).
-    { apply try_to_remove_file_new_mapM in E1. apply remove_empty_dirs_new in E2. apply restore_all_new in E3.
-      destruct E1 as (_ & A & _), E2 as (_ & B & _), E3 as (_ & C & _). congruence. }
-    rewrite H. apply gen_fb_create_dirs_eq.
+  - transitivity (((mapM_ try_to_remove_file (c_built (w_new w)) ;;; remove_empty_dirs dtr ;;; restore_all) ;;;
+                   (w5_ <- get ;; gen_fb_create_dirs (c_dirs (w_old w5_)) ;;; ret tt)) w).
+    + rewrite !dg_bind_assoc. apply dg_bind_cong; [apply gen_fb_roll_back_loop2_eq|]. intros _ w1.
+      rewrite !dg_bind_assoc. apply dg_bind_cong; [apply gen_fb_remove_empty_dirs_eq|]. intros _ w2.
+      apply dg_bind_cong; [apply gen_bk_restore_all_eq|]. intros; reflexivity.
+    + apply dg_bind_frame with (P := okPO); [apply roll_back_prefix_ok|]. intros w' [H _] _.
+      rewrite dg_bind_get, dg_bind_tt, H. apply gen_fb_create_dirs_eq.
   - rewrite !dg_bind_assoc. apply dg_bind_cong; [reflexivity|]. intros _ w1.
     rewrite !dg_bind_assoc. reflexivity.
 Qed.
